@@ -2,23 +2,108 @@
 
 HOOK_COMMITS = ["c35610e"]
 
-_PENDING = "check under construction in this session; will be claimed once its monitor is built and silent on the unchanged tree"
-NOT_APPLICABLE = [{"property_id": f"C{i:02d}", "reason": _PENDING} for i in range(1, 21)]
+# every property is claimed: each can be refuted by a finite observable execution (DESIGN.md §9)
+NOT_APPLICABLE = []
 
 TEXTS = {
+    "C01": {
+        "level_text": "Round-trip runtime monitor at the API boundary: generated logical archives (0 to ~6*10^4 tiles, ids over the whole valid domain, contents 1 B-100 KiB with exact/near duplicates, random JSON-object metadata, all tile types/compressions, 4 internal compressions, boundary coordinates) are written by the sync or async writer and opened again; every added tile is fetched and compared, ~100 absent ids per archive are probed, metadata and header settings are compared with what the generator set (coordinates: nearest multiple of 1e-7, judged on the stored integer parsed independently). Holds on the archives executed.",
+        "level_note": "Trusted: the generator's own map as oracle, refimpl header_unpack for the stored coordinates. Assumes no 64-bit content-hash collision among generated contents (it would be reported). Contents above 100 KiB and >6*10^4 tiles are not generated.",
+        "technique": "runtime monitoring of write->read round trips against the generator's own model (randomised + class-steered inputs)",
+    },
+    "C02": {
+        "level_text": "Output-validation monitor: EVERY file produced by the sync and async writers in the workload is parsed by a reader written independently from the v3 specification (Rust refimpl: header, sections inside the file and disjoint, root within 16 KiB, codec streams consumed exactly, strictly ascending non-overlapping entries inside tile data, leaf pointers = leaf first ids, JSON-object metadata via an independent JSON parser, the three counters recomputed, clustered flag, spec lookup for present and absent ids) and a sample of none/gzip files additionally by an unrelated stdlib-only Python reader.",
+        "level_note": "Trusted: harness/src/refimpl.rs and pyref/pmtiles_ref.py (self-tested; cross-checked against each other and the upstream fixtures); flate2/brotli/zstd shared with the library as codec back ends.",
+        "technique": "runtime monitoring of every written file by two independent spec-derived readers",
+    },
+    "C03": {
+        "level_text": "Differential runtime monitor on foreign inputs: archives are emitted by the harness' own spec-level writer (never by pmtiles2) with permuted sections, gaps, directory depth 1-3+, run lengths, shared/back-referencing/shuffled offsets, empty metadata, absent counters and codec streams produced by the upstream codecs with foreign parameters and framing variants; each is first accepted by the reference validator, then opened through from_bytes / from_reader / from_async_reader and compared with the writer's ground truth (id set, bytes at tile-data offset + entry offset, header settings, metadata, read_directories map, find_entry_for_tile_id vs a linear reference). The three upstream fixtures are included.",
+        "level_note": "Trusted: the foreign writer's ground truth (validated by the reference reader before use; a disagreement is reported as inconclusive, not as a violation).",
+        "technique": "differential runtime monitoring against an independent spec-level writer's ground truth",
+    },
+    "C04": {
+        "level_text": "Lock-step sequential-model monitor over edit histories: every sequence of <=4 (quick) / <=6 (thorough) operations over an 11-symbol alphabet (adjacent ids, colliding contents, save+reopen sync/async) from two start states, plus long random histories over up to 10^3 ids with periodic save+reopen in all codecs; after every operation the whole observable state (lookups by id and by coordinates, listing, count) is compared with a BTreeMap model and the in-crate store report (feature verif) must show no internal disagreement. Evidence includes the op x abstract-pre-state transition matrix.",
+        "level_note": "Trusted: the BTreeMap model; the verif hook only reads the three internal maps. Bounded-exhaustive part is exhaustive only for the stated alphabet and length.",
+        "technique": "runtime monitoring against an executable sequential model (bounded-exhaustive + random histories) with an in-crate invariant hook",
+    },
     "C05": {
-        "level_text": "Differential runtime monitor: every generated valid entry list is serialised by the library and compared byte-for-byte with an independent spec encoder, parsed back, and the independent encoder's output (compressed by the upstream codecs with foreign parameters) is parsed by the library; bounded-exhaustive over boundary-valued lists of <=3 entries, random up to 10^5 entries, 4 codecs, sync+async. Exploration: holds on the lists executed, which include every branch of the offset rule at index 0 and >0.",
+        "level_text": "Differential runtime monitor: every generated valid entry list is serialised by the library and compared byte-for-byte with an independent spec encoder, parsed back, and the independent encoder's output (compressed by the upstream codecs with foreign parameters) is parsed by the library; bounded-exhaustive over boundary-valued lists of <=3 entries, random up to 10^5 entries, 4 codecs, sync+async. Holds on the lists executed, which include every branch of the offset rule at index 0 and >0.",
         "level_note": "Trusted: harness/src/refimpl.rs (varint + directory codec written from the spec), flate2/brotli/zstd as upstream decoders, the harness PRNG. Lists beyond the generated sizes/values are not covered.",
         "technique": "differential runtime monitoring against an independent spec encoder/decoder (bounded-exhaustive + random inputs)",
+    },
+    "C06": {
+        "level_text": "Output-structure monitor on util::write_directories(_async) over a recording stream: lists size-steered so that the None encoding lands exactly at 16256/16257/16258/.../16385 bytes, codec lists bracketed around the first spilling prefix, random lists up to 10^5 entries, initial leaf sizes {default,1,2,7,33,4096,10^6}; root = stream[start, position) must be <=16257 bytes and decode (exact consumption) as one directory; on spill only pointers whose [offset,offset+length) decodes as exactly one leaf starting with the pointer's id, concatenation = input; no spill => root = input; spill <=> the single-directory encoding exceeds 16257 bytes. Whole-archive form of the clauses is monitored by C02.",
+        "level_note": "Trusted: refimpl decoder and the codecs' consumed-byte accounting (flate2 bufread, zstd single-frame, brotli stream API). Leaf sections are not required to be gap-free (observed, not demanded).",
+        "technique": "runtime monitoring of the writer's output structure with an independent decoder (size-steered boundary inputs)",
     },
     "C07": {
         "level_text": "Differential runtime monitor: the library's tile_id/zxy are compared in both directions with the specification's rotate/flip Hilbert algorithm for every id of zooms 0..10 (quick) / 0..15 (thorough) plus boundary and random points at every zoom and u64 ids beyond zoom 31; structural clauses (adjacency, zoom blocks, children blocks) are asserted on the library's own outputs; coordinate lookups outside the grid (z up to 255) run against archives holding the aliased tile and must answer None/Err without panicking (overflow checks on).",
         "level_note": "Trusted: the reference Hilbert implementation (self-tested against the spec's published vectors). Zooms above the exhaustive bound are sampled, not enumerated.",
         "technique": "differential runtime monitoring against the spec's Hilbert algorithm, exhaustive to a zoom bound, + panic/overflow observer on lookups",
     },
+    "C08": {
+        "level_text": "Crash observer under hostile inputs: a crafted corpus (>=1 archive per hazard class x 4 codecs: huge entry counts, overflowing id/offset sums, zero first offset, offsets near 2^64, self/2-cycle/wide-cycle pointers, chains up to 10^5 links, oversized lengths, bad metadata, wrong/garbage codec streams), every prefix and single-byte boundary substitution of small valid archives, and 2*10^5 (quick) / 4*10^6 (thorough) structure-aware mutations are fed to the header/directory/archive readers (sync+async), then lookups, partial opens, read_directories and a re-write run on whatever opened. Observed: panics (overflow checks on in the crate under test), worker death (stack overflow, allocation failure under a 12 GiB limit; attributed to the exact case via a progress file) and logical stream-operation budgets. Thorough adds a stock-release pass, an ASan pass (zstd C code instrumented) and a Miri pass on the codec-free subset.",
+        "level_note": "Trusted: the lenient expansion estimator that puts inputs expanding past 2*10^6 tiles / 10^5 directory visits outside the claim. A loop that performs no I/O at all is only caught by the (inconclusive) watchdog. Clean sanitizer runs cover only the reached code.",
+        "technique": "runtime monitoring with a panic/abort/overflow observer under crafted, exhaustive-small and structure-aware mutated inputs; ASan + Miri layers in thorough",
+    },
     "C09": {
         "level_text": "Differential runtime monitor: headers are packed by an independent 127-byte packer, parsed by the library and re-serialised; bytes must be reproduced for every stored coordinate value visited (all 2^32 in the thorough tier, every 4099th in quick), parsed fields must equal the packed ones, degrees must be stored as the nearest multiple of 1e-7, the reader must consume exactly 127 bytes under short reads / Pending, and every malformed class (magic, version, enum codes, truncations) must be rejected with an error.",
         "level_note": "Trusted: refimpl header_pack/header_unpack. The u64 fields are sampled at boundary/random values, not enumerated.",
         "technique": "differential runtime monitoring against an independent header codec (exhaustive over stored coordinate values in thorough)",
+    },
+    "C10": {
+        "level_text": "Output-structure + invariant-hook monitor: logical archives with hard duplication patterns (runs, alternation, cross-zoom duplicates, one content over a long block, near duplicates) are built along four histories (in memory, half/reopen/half so that duplicates straddle reader-backed and in-memory tiles, reopen then re-add identical bytes, detours through junk) and written; the file parsed by the reference reader must have tile-data length = sum of distinct contents, identical content <=> identical offset, no mergeable neighbouring entries, entry count = number of maximal runs, correct content counter; while building, the in-crate store report must show exactly one retained copy per live content and none unreferenced.",
+        "level_note": "Trusted: refimpl reader, the model of live contents, the read-only verif hook. Assumes no 64-bit content-hash collision among generated contents.",
+        "technique": "runtime monitoring of written structure (independent reader) plus an in-crate store invariant hook at quiescent points",
+    },
+    "C11": {
+        "level_text": "Differential runtime monitor: for library-written and foreign archives (depth 1-3, 4 codecs) the range-filtered open through all four entry points is compared with the full open of the same bytes filtered by RangeBounds::contains, for ~110/260 ranges per archive covering all 3x3 bound kinds with endpoints steered onto 0, leaf first ids, run boundaries, the last id and u64::MAX, the literal forms ..0 ..=0 0..0, inverted and empty ranges; overflow checks on. Evidence shows how often leaf bytes were actually skipped.",
+        "level_note": "Trusted: the library's own full open as oracle (its correctness is C01/C03's subject).",
+        "technique": "differential runtime monitoring: partial open vs full open restricted to the range (steered + random ranges)",
+    },
+    "C12": {
+        "level_text": "Differential runtime monitor sync vs async: the async readers/writers (feature async, never compiled by the repo's tests) are driven by block_on over plain cursors and over an instrumented stream with short transfers and random Pending, on logical archives (all four writer x reader combinations, None outputs byte-compared, async output judged by the independent reader), foreign and library-written archives (full and range-filtered opens incl. tile bytes, read_directories twins), entry lists x 4 codecs (Directory and write_directories twins) and headers.",
+        "level_note": "Trusted: the synchronous twin as oracle; futures::executor::block_on as executor.",
+        "technique": "differential runtime monitoring of async twins against sync twins under Pending and short transfers",
+    },
+    "C13": {
+        "level_text": "Schedule-imposing monitor: stream wrappers impose transfer-size schedules (>=1 byte) and Pending patterns on one task; EVERY composition of n<=16 (quick) / 20 (thorough) bytes for None-encoded directories on read and write, every fixed chunk size / two-part split / random compositions for codec directories and headers, fixed chunks {1,2,3,7,64,4096} and random schedules on whole archives incl. leaf-spilling ones in 4 codecs, sync and async, and every Pending pattern over the first 12 polls; results must equal the unfragmented twin (values for readers, bytes for writers).",
+        "level_note": "Trusted: the instrumented streams (self-tested against std Cursor). Seeks are not fragmented and Interrupted is not injected (the property's schedule space).",
+        "technique": "runtime monitoring under imposed fragmentation/Pending schedules (exhaustive for small inputs) against the unfragmented twin",
+    },
+    "C14": {
+        "level_text": "Inverse + interoperability monitor: payloads (empty, 1 byte, runs, text, incompressible, block-boundary sizes, multi-megabyte) x 4 codecs x {one-shot helpers; upstream-encoded foreign streams; streaming adapters sync+async under caller chunk schedules over fragmenting/Pending streams; every composition of write chunks for |x|<=12}; outputs must decode with the upstream codec libraries consuming exactly the whole stream, a sample of gzip outputs with Python's gzip, and 'unknown' must be refused by all eight entry points. Thorough adds an ASan pass with the zstd C code instrumented.",
+        "level_note": "Trusted: flate2/brotli/zstd upstream decoders and Python zlib as judges of 'standard stream'.",
+        "technique": "runtime monitoring of compress/decompress inverses against upstream and unrelated decoders under chunking schedules; ASan layer in thorough",
+    },
+    "C15": {
+        "level_text": "Fail-stop fault enumeration: for each of ~116 scenarios (PMTiles to_writer/from_reader/get_tile_by_id, read_directories/write_directories, Directory and Header readers/writers; small and leaf-spilling; 4 codecs; sync and async) the fault-free run defines N stream operations and the run in which operation k and all later ones fail is executed for every k<N (a stride is reported for the few scenarios with N above the tier limit); the call must not panic and Ok implies the stream image / returned value equals the fault-free one.",
+        "level_note": "Trusted: the fail-stop stream wrapper. Fault model: operation k and all later ones fail without side effect; transient faults and torn individual writes are not modelled.",
+        "technique": "fault injection at every stream-operation index (fail-stop) with a fault-free twin as oracle",
+    },
+    "C16": {
+        "level_text": "Pairwise byte-comparison monitor: each logical archive is built along nine histories reaching the same logical state (insertion orders, metadata key orders, detours, save+reopen midway with sync/async reopen, sync and async writer) and all outputs of a writer kind must be byte-identical; outputs are reopened and re-written (rewrite idempotence incl. stored coordinates); a cross-process phase has 6 separate OS processes (different hash-map seeds) serialise the same archives and compares fingerprints.",
+        "level_note": "Trusted: byte equality only (no golden files). Six processes sample the space of hash seeds; they do not enumerate it.",
+        "technique": "runtime monitoring by pairwise byte comparison across edit histories and OS processes",
+    },
+    "C17": {
+        "level_text": "Crash-point enumeration over recorded operation logs: the writer's stream operations into a fresh stream are recorded with data; for EVERY k in [0,N] the first k operations are replayed into a fresh image which is handed to the library's own reader; any image that opens must be byte-identical to the complete archive. Archives with and without leaf spill, 4 codecs, sync and async.",
+        "level_note": "Trusted: the op-replay (self-tested to reproduce the image). Each write call is atomic, as the property's quantifier states.",
+        "technique": "offline checker over recorded stream-operation logs, replayed at every crash point into the library's reader",
+    },
+    "C18": {
+        "level_text": "Stream-image monitor: the writers (sync and async with Pending) start at position P in {0,1,10,127,128,4096,random<2^20} of streams pre-filled with sentinels (empty, shorter than P, exactly P, longer than the archive); sentinel bytes before P must be intact, stream[P..final position] must validate with the independent reader and address exactly the logical content with offsets relative to P, and the final position must be P + archive end.",
+        "level_note": "Trusted: refimpl validator; in-memory stream with Cursor semantics (zero fill past the end).",
+        "technique": "runtime monitoring of the stream image after writing at a non-zero start position, judged by the independent reader",
+    },
+    "C19": {
+        "level_text": "Rejection observer with before/after state: a zero-length entry at every index (sampled for large directories) x 4 codecs x serialiser/parser x sync/async; add_tile(id, []) on existing and absent ids after every operation of random edit histories with full observable-state, store-report and saved-bytes comparison against an untouched twin; every non-object JSON kind as metadata x 4 codecs x sync/async open; Unknown internal compression on write, open and at directory level. Each clause has a positive control.",
+        "level_note": "Trusted: the independent writer used to craft the offending archives; the C04 model for the 'unchanged' clause.",
+        "technique": "runtime monitoring of documented refusals with before/after state comparison",
+    },
+    "C20": {
+        "level_text": "Read-range monitor over recorded operation logs: opens (full and range-filtered, sync and async with Pending) and per-tile lookups run over a recording stream on library-written and foreign archives (permuted sections, sentinel gaps, tile data before directories, depth 1-3, 4 codecs); interval arithmetic over the bytes actually returned by reads must stay inside header + metadata + root + leaf sections for an open (never tile data or a gap) and inside exactly the tile's byte range for a lookup; an absent id must read nothing.",
+        "level_note": "Trusted: the recording stream and the independently parsed header's section table. Re-reading and reading the whole leaf section are allowed (the statement permits both).",
+        "technique": "offline interval checker over recorded read operations against independently parsed section bounds",
     },
 }
